@@ -3,6 +3,7 @@ module github.com/internetarchive/Zeno/verifharness
 go 1.24.2
 
 require (
+	github.com/CorentinB/warc v0.8.76
 	github.com/gabriel-vasile/mimetype v1.4.8
 	github.com/grafov/m3u8 v0.12.1
 	github.com/internetarchive/Zeno v0.0.0
@@ -10,7 +11,6 @@ require (
 )
 
 require (
-	github.com/CorentinB/warc v0.8.76 // indirect
 	github.com/ImVexed/fasturl v0.0.0-20230304231329-4e41488060f3 // indirect
 	github.com/PuerkitoBio/goquery v1.10.3 // indirect
 	github.com/ada-url/goada v0.0.0-20250104020233-00cbf4dc9da1 // indirect
